@@ -55,10 +55,29 @@ func (d *Doc) Bytes() []byte {
 	}
 	xref := b.Len()
 	fmt.Fprintf(&b, "xref\n0 %d\n", len(d.Objs)+1)
-	b.WriteString("0000000000 65535 f \n")
+	// well-formed free list: 0 -> first free -> next free -> ... -> 0
+	var free []int
 	for i := 1; i <= len(d.Objs); i++ {
 		if d.Objs[i-1] == "" {
-			b.WriteString("0000000000 00000 f \n")
+			free = append(free, i)
+		}
+	}
+	next := func(k int) int {
+		if k+1 < len(free) {
+			return free[k+1]
+		}
+		return 0
+	}
+	head := 0
+	if len(free) > 0 {
+		head = free[0]
+	}
+	fmt.Fprintf(&b, "%010d 65535 f \n", head)
+	fi := 0
+	for i := 1; i <= len(d.Objs); i++ {
+		if d.Objs[i-1] == "" {
+			fmt.Fprintf(&b, "%010d 00001 f \n", next(fi))
+			fi++
 			continue
 		}
 		fmt.Fprintf(&b, "%010d 00000 n \n", offs[i])
